@@ -1,11 +1,11 @@
 package rules
 
 import (
-	"os"
 	"fmt"
 	"go/ast"
 	"go/token"
 	"go/types"
+	"os"
 	"strings"
 
 	"golang.org/x/tools/go/packages"
@@ -1890,6 +1890,121 @@ func init() {
 			}
 			for _, o := range control(c, "PARAMMUT", scanParamMut, "(fxPolyEval).Scaled") {
 				out = append(out, withProps(o, "C13"))
+			}
+			return out
+		}})
+}
+
+// RESCALETARGET — an operation that is given a scale to reach rescales *to* it.
+//
+// `SetScale(ct, scale)` multiplies by scale/ct.Scale and then divides by as many primes as it takes to come back to
+// `scale` (RescaleTo); so does the bootstrapping `ScaleDown` with its `targetScale`. Replacing that by one `Rescale`
+// (exactly one prime, or two in the 128-bit mode) is right only when the ratio happens to be one prime: otherwise the
+// ciphertext ends at another scale than the one that is then recorded.
+//
+// Rule: a function of the CKKS packages that has a target scale in hand — a parameter of type rlwe.Scale, or a local
+// named target…Scale — does not call the single-step Rescale of an evaluator.
+func scanRescaleTarget(c *core.Ctx) []ob {
+	var out []ob
+	n := 0
+	c.FuncDecls(func(pk *packages.Package, file *ast.File, fd *ast.FuncDecl) {
+		rel := core.ShortPkg(pk.PkgPath)
+		if fd.Body == nil || fileIsTestSupport(c.Program, fd.Pos()) || !(c.IsFixture || strings.HasPrefix(rel, "schemes/ckks") || strings.HasPrefix(rel, "circuits/ckks")) {
+			return
+		}
+		if c.IsFixture && !strings.HasPrefix(fd.Name.Name, "ckks") {
+			return
+		}
+		info := pk.TypesInfo
+		isScale := func(t types.Type) bool {
+			nm := namedOf(t)
+			return nm != nil && nm.Obj().Name() == "Scale" && nm.Obj().Pkg() != nil && strings.HasSuffix(nm.Obj().Pkg().Path(), "core/rlwe")
+		}
+		target := ""
+		if fd.Type.Params != nil {
+			for _, fl := range fd.Type.Params.List {
+				for _, nm := range fl.Names {
+					if isScale(info.TypeOf(nm)) {
+						target = nm.Name
+					}
+				}
+			}
+		}
+		ast.Inspect(fd.Body, func(x ast.Node) bool {
+			if as, ok := x.(*ast.AssignStmt); ok && as.Tok == token.DEFINE {
+				for _, l := range as.Lhs {
+					if id, ok := l.(*ast.Ident); ok {
+						low := strings.ToLower(id.Name)
+						if strings.HasPrefix(low, "target") && strings.Contains(low, "scale") {
+							target = id.Name
+						}
+					}
+				}
+			}
+			return true
+		})
+		if target == "" {
+			return
+		}
+		fkey := core.FuncKey(pk, fd)
+		var bad *ast.CallExpr
+		uses := false
+		ast.Inspect(fd.Body, func(x ast.Node) bool {
+			call, ok := x.(*ast.CallExpr)
+			if !ok {
+				return true
+			}
+			sel, ok := unparen(call.Fun).(*ast.SelectorExpr)
+			if !ok {
+				return true
+			}
+			switch sel.Sel.Name {
+			case "Rescale":
+				if f := calleeFunc(info, call); f != nil && len(call.Args) == 2 && bad == nil {
+					bad = call
+				}
+			case "RescaleTo":
+				uses = true
+			case "Div", "Mul", "Cmp", "Equal", "Max", "Min", "InDelta", "Float64", "Uint64", "Log2", "Errorf", "Sprintf", "NewScale", "Quo", "Set", "SetPrec", "SetFloat64", "SetInt":
+				// scale arithmetic and messages do not consume the target
+			default:
+				// the target handed to another operation (a polynomial evaluation with a target scale): consumed there
+				for _, a := range call.Args {
+					ast.Inspect(a, func(y ast.Node) bool {
+						if id, ok := y.(*ast.Ident); ok && id.Name == target {
+							uses = true
+						}
+						return true
+					})
+				}
+			}
+			return true
+		})
+		if bad == nil && !uses {
+			return
+		}
+		if uses {
+			bad = nil // the target is reached by RescaleTo or by the operation it is handed to; single steps elsewhere are part of the circuit
+		}
+		n++
+		key := "RESCALETARGET:" + fkey
+		if bad != nil {
+			out = append(out, withProps(violOb("RESCALETARGET", key, c.Rel(bad.Pos()), fmt.Sprintf("%s has the scale to reach in %s but rescales with %s, which divides by exactly one prime (two in the 128-bit mode): unless the ratio is that prime the ciphertext ends at another scale than the one recorded", fkey, target, exprString(bad.Fun))), propsForKey(fkey)...))
+		} else {
+			out = append(out, withProps(okOb("RESCALETARGET", key, c.Rel(fd.Pos()), "rescales to the target scale it holds", true), propsForKey(fkey)...))
+		}
+	})
+	c.Stats["rescaletarget_funcs"] = n
+	return out
+}
+
+func init() {
+	core.Register(&core.Rule{Name: "RESCALETARGET", Wide: true, Props: []string{"C06", "C18", "C13"},
+		Doc: "a function of the CKKS packages that holds a target scale (a parameter of type rlwe.Scale or a local named target…Scale) rescales with RescaleTo, never with the single-step Rescale",
+		Run: func(c *core.Ctx) []ob {
+			out := scanRescaleTarget(c)
+			for _, o := range control(c, "RESCALETARGET", scanRescaleTarget, "lvfixture.ckksSetScale") {
+				out = append(out, withProps(o, "C06"))
 			}
 			return out
 		}})
